@@ -23,6 +23,9 @@ RULE = (
     "sequential orders of the same operations on fresh objects (points compared as group elements, exceptions as results); the sequential values are cross-checked "
     "once per combination against OpenSSL (EC_POINT_mul/add, ECDSA_do_verify, point2oct). Non-trivial = B really ran inside A and A or B changes the stored "
     "representation (table / coordinates) of the shared object; distinct by case hash. "
+    "(A2) part edwards: the same for the PointEdwards class - a FRESH PointEdwards(generator=True) of Ed25519 and Ed448 with empty table, A = G*ka stopped at line events (thorough: EVERY one; quick: every 5th, for kb = 5 every 15th) "
+    "of the PointEdwards frames whose self is the shared object (table construction _maybe_precompute, __mul__, _mul_precompute), complete B = G*kb (kb large / 5) "
+    "inline, then two probe multiplications; (A, B, probes) as affine points must equal a sequential order on fresh objects. "
     "(B) lock: the real _rwlock.py source (located through the imported module's __file__) is exec'd with `threading` replaced by model locks; every Lock.acquire/"
     "release and every read/write of plain shared data (light-switch counters) is a scheduling point; ALL interleavings of the listed thread sets (1R+1W, 2R+1W, "
     "1R+2W, 2R, thorough also 2R+2W, 3R+1W, 3R and two rounds per thread for 2R+1W / 1R+2W; each thread: acquire - critical section - release) are explored "
@@ -45,7 +48,7 @@ ASSUMPTIONS = [
 REQUIRED_CLASSES = [
     "preempt.in=_maybe_precompute", "preempt.in=scale", "preempt.in=__mul__", "preempt.in=mul_add", "preempt.in=to_affine",
     "preempt.state=before_publish", "preempt.state=after_publish", "A.mutates=table", "A.mutates=coords", "baseline.ossl_agree",
-    "scen=gen", "scen=pub", "scen=vkpre", "scen=genz", "sampled.preemptions=2", "mode=line", "mode=instr",
+    "edwards.preempt.in=_maybe_precompute", "edwards.preempt.in=_mul_precompute", "edwards.curve=Ed448", "scen=gen", "scen=pub", "scen=vkpre", "scen=genz", "sampled.preemptions=2", "mode=line", "mode=instr",
     "lock.two_readers_states", "lock.writer_alone_states", "lock.blocked_states", "lock.probe_second_reader_enters",
 ]
 
@@ -493,6 +496,131 @@ def check_preempt(case, rec):
             case["scen"], case["curve"], case["a"], pts, ", ".join(where) or "not reached", list(case["bs"]), "; ".join(diffs) or "outcome differs", len(base["outcomes"])))
 
 
+# ------------------------------------------------------------------------------------------- Edwards generators (batch 30)
+# The property's "a curve's generator with its lazily built multiplication table" also covers the PointEdwards class
+# (Ed25519 / Ed448): the same one-preemption sweep, with a small tracer of its own (the machinery above is PointJacobi-specific).
+
+ED_CODES = sched.class_codes(EC.PointEdwards)
+_ED_EXPECT = {}
+
+
+def _ed_fresh(curve):
+    c = getattr(CV, curve)
+    g, p = c.generator, int(c.curve.p())
+    x, y = int(g.x()), int(g.y())
+    return EC.PointEdwards(c.curve, x, y, 1, x * y % p, int(c.order), generator=True)
+
+
+def _ed_norm(f):
+    try:
+        r = f()
+    except Exception as e:  # an exception is a result (compared with the sequential one)
+        return ("exc", type(e).__name__)
+    if r is EC.INFINITY:
+        return "inf"
+    return (int(r.x()), int(r.y()))
+
+
+def _ed_scalars(curve):
+    n = int(getattr(CV, curve).order)
+    return {"ka": (n // 3) | 1, "big": (n // 7) | 1, "small": 5, "probe": (n // 13) | 1}
+
+
+def _ed_trace(S, at, action):
+    """Run f with line events counted in PointEdwards frames whose self is S; at event index `at` call action(frame) inline (tracing is off inside a
+    trace callback, so the complete operation B is not itself preempted)."""
+    st_ = {"n": 0, "where": None}
+
+    def local(frame, event, arg):
+        if event == "line":
+            if st_["n"] == at:
+                st_["where"] = (frame.f_code.co_name, frame.f_lineno)
+                action()
+            st_["n"] += 1
+        return local
+
+    def glob(frame, event, arg):
+        if frame.f_code in ED_CODES and frame.f_locals.get("self") is S:
+            return local
+        return None
+
+    return st_, glob
+
+
+def _ed_run(curve, kb, at):
+    import sys
+    sc = _ed_scalars(curve)
+    S = _ed_fresh(curve)
+    res = {}
+    st_, glob = _ed_trace(S, at, lambda: res.__setitem__("b", _ed_norm(lambda: S * kb)))
+    old = sys.gettrace()
+    sys.settrace(glob)
+    try:
+        res["a"] = _ed_norm(lambda: S * sc["ka"])
+    finally:
+        sys.settrace(old)
+    inside = "b" in res
+    if not inside:
+        res["b"] = _ed_norm(lambda: S * kb)
+    res["probe"] = _ed_norm(lambda: S * sc["probe"])
+    res["probe3"] = _ed_norm(lambda: S * 3)
+    return res, st_, inside
+
+
+def _ed_expected(curve, kb):
+    key = (curve, kb)
+    if key not in _ED_EXPECT:
+        sc = _ed_scalars(curve)
+        outs = []
+        for order in (("a", "b"), ("b", "a")):  # both sequential orders, each on a fresh object
+            S = _ed_fresh(curve)
+            r = {}
+            for w in order:
+                r[w] = _ed_norm(lambda: S * (sc["ka"] if w == "a" else kb))
+            r["probe"] = _ed_norm(lambda: S * sc["probe"])
+            r["probe3"] = _ed_norm(lambda: S * 3)
+            outs.append(r)
+        # validation of the baseline itself against the module's own (long-lived) generator object: a harness matter, not a verdict
+        g = getattr(CV, curve).generator
+        if outs[0]["a"] != _ed_norm(lambda: g * sc["ka"]):
+            raise RuntimeError("Edwards baseline: fresh generator and the curve's own generator disagree sequentially")
+        _ED_EXPECT[key] = outs
+    return _ED_EXPECT[key]
+
+
+def ed_enum(tier, shard, nshards, rng):
+    idx = 0
+    for curve in ("Ed25519", "Ed448"):
+        sc = _ed_scalars(curve)
+        _, st_, _ = _ed_run(curve, sc["small"], -1)
+        n = st_["n"]
+        for which in ("big", "small"):
+            step = 1 if tier == "thorough" else 5 if which == "big" else 15
+            for i in range(0, n, step):
+                idx += 1
+                if idx % nshards == shard:
+                    yield dict(curve=curve, b=which, at=i)
+
+
+def check_edwards(case, rec):
+    curve, kb = case["curve"], _ed_scalars(case["curve"])[case["b"]]
+    exp = _ed_expected(curve, kb)
+    res, st_, inside = _ed_run(curve, kb, case["at"])
+    rec.cls("edwards.curve=" + curve)
+    rec.cls("edwards.B=" + case["b"])
+    if st_["where"]:
+        rec.cls("edwards.preempt.in=" + st_["where"][0])
+    if inside:
+        rec.nt()
+    else:
+        rec.cls("edwards.preempt.after_A_finished")
+    if res not in exp:
+        diffs = ["%s = %r, sequentially %r" % (k, res[k], exp[0][k]) for k in sorted(res) if res[k] != exp[0][k]]
+        raise Violation("PointEdwards generator of %s: A = G*%d preempted at line event %d (%s) by the complete B = G*%d on the same object: %s" % (
+            curve, _ed_scalars(curve)["ka"], case["at"], "%s:%d" % st_["where"] if st_["where"] else "not reached", kb, "; ".join(diffs)[:600]))
+
+
+
 # ---------------------------------------------------------------------------------------------------- enumerated sweeps
 
 
@@ -807,6 +935,7 @@ def parts(tier):
     ps = [
         Part("sweep_line", check=check_preempt, enum=sweep_enum(plan_line), quick=(16, 0), thorough=(16, 0), exhaustive=True),
         Part("sampled", check=check_sampled, strategy=strat_sampled, quick=(16, 60), thorough=(16, 1500)),
+        Part("edwards", check=check_edwards, enum=ed_enum, quick=(16, 0), thorough=(16, 0), exhaustive=True),
         Part("lock_1r1w", check=check_lock_schedule, bulk=lock_bulk("lock_1r1w", "RW"), quick=(1, 0), thorough=(1, 0), exhaustive=True),
         Part("lock_2r1w", check=check_lock_schedule, bulk=lock_bulk("lock_2r1w", "RRW"), quick=(1, 0), thorough=(1, 0), exhaustive=True),
         Part("lock_1r2w", check=check_lock_schedule, bulk=lock_bulk("lock_1r2w", "RWW"), quick=(1, 0), thorough=(1, 0), exhaustive=True),
